@@ -41,6 +41,29 @@ class CountState(ProducerState):
 
 
 @dataclass
+class CountFailState(ProducerState):
+    """Producer that raises on its `at`-th turn (a server-side error in the middle of a stream)."""
+
+    tag: int
+    at: int
+    i: int = 0
+
+    def produce(self, out: OutputCollector, ctx: CallContext) -> None:
+        if self.i >= self.at:
+            raise ValueError(f"producer {self.tag} fails at {self.at}")
+        out.emit_pydict({"v": [self.tag * 1000 + self.i]})
+        self.i += 1
+
+
+@dataclass
+class AddFailState(ExchangeState):
+    tag: int
+
+    def exchange(self, input: AnnotatedBatch, out: OutputCollector, ctx: CallContext) -> None:
+        raise ValueError(f"exchange {self.tag} fails")
+
+
+@dataclass
 class AddState(ExchangeState):
     tag: int
     logs: int
@@ -58,6 +81,11 @@ class PoolSvc(Protocol):
     def count(self, tag: int, n: int, logs: int) -> Stream[CountState]: ...
     def count_h(self, tag: int, n: int, logs: int) -> Stream[CountState, Hdr]: ...
     def xchg(self, tag: int, logs: int) -> Stream[AddState]: ...
+    def boom(self, x: int) -> int: ...
+    def count_fail(self, tag: int, at: int) -> Stream[CountFailState]: ...
+    def init_fail(self, tag: int) -> Stream[CountState]: ...
+    def init_fail_h(self, tag: int) -> Stream[CountState, Hdr]: ...
+    def xchg_fail(self, tag: int) -> Stream[AddFailState]: ...
 
 
 class PoolSvcImpl:
@@ -82,6 +110,22 @@ class PoolSvcImpl:
 
     def xchg(self, tag: int, logs: int) -> Stream[AddState]:
         return Stream(output_schema=_V, state=AddState(tag=tag, logs=logs), input_schema=_V)
+
+
+    def boom(self, x: int) -> int:
+        raise ValueError(f"boom {x}")
+
+    def count_fail(self, tag: int, at: int) -> Stream[CountFailState]:
+        return Stream(output_schema=_V, state=CountFailState(tag=tag, at=at))
+
+    def init_fail(self, tag: int) -> Stream[CountState]:
+        raise ValueError(f"init {tag} fails")
+
+    def init_fail_h(self, tag: int) -> Stream[CountState, Hdr]:
+        raise ValueError(f"init {tag} fails (header declared)")
+
+    def xchg_fail(self, tag: int) -> Stream[AddFailState]:
+        return Stream(output_schema=_V, state=AddFailState(tag=tag), input_schema=_V)
 
 
 def make_server() -> RpcServer:
